@@ -587,7 +587,8 @@ def generate_c05_chunked(rng, tr):
                "law_order": rng.choice(["samples", "samples", "sorted", "reversed"]),
                "chunk_row_order": rng.choice([0, 0, 1, 2, 3]),
                "final_flush": rng.random() < 0.6, "restart_load_step": rng.random() < 0.3, "max_factor": 1.0731,
-               "shared_max": rng.random() < 0.3})
+               "shared_max": rng.random() < 0.3,
+               "label_offset": rng.choice([0, 0, 0, 1, 7, 1000])})
     return tr
 
 
@@ -1086,7 +1087,8 @@ def exec_c05_chunked(trace, out, log):
         law_b = get_law(kind, mat, law_nodes([(i, big * mf * r) for i, r in nodes], trace.get("law_order")), bins)
     chunks_b = []
     for a, b in zip(bounds[:-1], bounds[1:]):
-        steps_ = range(0, b - a) if restart else range(a, b)
+        off = int(trace.get("label_offset") or 0)      # the recording's step counter does not start at zero
+        steps_ = range(off, off + b - a) if restart else range(off + a, off + b)
         idx = pd.MultiIndex.from_product([steps_, [i for i, _ in nodes]], names=["load_step", "node_id"])
         ch = pd.Series([lv[k] * step * r for k in range(a, b) for _, r in nodes], index=idx, dtype=np.float64)
         if trace.get("chunk_row_order") and (len(chunks_b) + int(trace["chunk_row_order"])) % 3 == 0 and len(nodes) > 1:
@@ -1222,7 +1224,7 @@ def shrink(prop, trace):
             t = copy.deepcopy(trace)
             t["nodes"] = cand
             yield t
-    for key, simple in (("law", "EN"), ("mat", 0), ("step", 100.0), ("bins", 20), ("peek", "none"), ("container", "f64"), ("ckpt", "none")):
+    for key, simple in (("law", "EN"), ("mat", 0), ("step", 100.0), ("bins", 20), ("peek", "none"), ("container", "f64"), ("ckpt", "none"), ("label_offset", 0)):
         if trace.get(key) != simple:
             t = copy.deepcopy(trace)
             t[key] = simple
